@@ -510,3 +510,36 @@ Definition par_verdict (c : par_case) : verdict :=
                           | None => false end) vals o
       then Agree else Differ
   end.
+
+(* ---- C06: histories of solve calls ---- *)
+Record pur_call := {
+  pc_path : list nat;                 (* which (sub-)solver is solved *)
+  pc_kw : dict;
+  pc_now : obs (list QcCf);           (* leaf values read from the result right after the call *)
+  pc_later : obs (list QcCf);         (* the same result re-read after all later calls *)
+  pc_unchanged : bool                 (* structures/connections/exposed pins/defaults of every solver untouched *)
+}.
+Record pur_case := { pu_tree : ptree; pu_calls : list pur_call }.
+
+Definition vals_close (vals : list (option val)) (o : list QcCf) : bool :=
+  Nat.eqb (List.length vals) (List.length o) &&
+  all2 (fun v x => match v with
+                   | Some q => cclose tol12 (BigQ.of_Q (Qred q), BigQ.zero) x
+                   | None => false end) vals o.
+
+Definition pur_verdict (c : pur_case) : verdict :=
+  let one (k : pur_call) : verdict :=
+    match subtree (pu_tree c) (pc_path k) with
+    | None => ModelUndefined
+    | Some t =>
+        let vals := deliver fnlib t (pc_kw k) in
+        match pc_now k, pc_later k with
+        | Obs a, Obs b => if pc_unchanged k && vals_close vals a && vals_close vals b then Agree else Differ
+        | _, _ => ImplError
+        end
+    end in
+  let vs := map one (pu_calls c) in
+  if forallb is_agree vs then Agree
+  else if existsb (fun v => match v with Differ => true | _ => false end) vs then Differ
+  else if existsb (fun v => match v with ImplError => true | _ => false end) vs then ImplError
+  else ModelUndefined.
